@@ -30,6 +30,10 @@ MODELS = {
     'inp': {'ops': {'to': {'eqs': ["v' = -v + u"], 'vars': {'v': 'output(0.25)', 'u': 'input(0.0)'}}},
             'node_tpls': {'G': [['to', {}]]}, 'circuit': {'name': 'net', 'nodes': {'g': 'G'}, 'edges': []},
             'out': {'v': 'g/to/v'}, 'input': 'g/to/u'},
+    'nonlin': {'ops': {'no': {'eqs': ["d/dt * x = -x*x + tanh(z)", "d/dt * z = x - z^3"],
+                              'vars': {'x': 'output(0.8)', 'z': 'variable(-0.4)'}}},
+               'node_tpls': {'N': [['no', {}]]}, 'circuit': {'name': 'net', 'nodes': {'n': 'N'}, 'edges': []},
+               'out': {'x': 'n/no/x', 'z': 'n/no/z'}},
     'tdep': {'ops': {'qo': {'eqs': ["d/dt * x = -x + 2*t"], 'vars': {'x': 'output(0.5)', 't': 'variable(0.0)'}}},
              'node_tpls': {'Q': [['qo', {}]]}, 'circuit': {'name': 'net', 'nodes': {'q': 'Q'}, 'edges': []},
              'out': {'x': 'q/qo/x'}},
@@ -108,7 +112,7 @@ def cases(tier, seed):
                 out.append(dict(g, model=model, solver='scipy', method=method, backend='default', vectorize=False))
     # other backends' own implementations of the fixed-step solvers
     for backend, solvers_b in (('torch', ('euler',)), ('jax', ('euler', 'heun'))):
-        for model in ('decay', 'rot', 'edge', 'inp'):
+        for model in ('decay', 'rot', 'edge', 'inp', 'nonlin'):
             for g in (grid(tier)[::7] if tier == 'quick' else grid(tier)[::2]):
                 for solver in solvers_b:
                     out.append(dict(g, model=model, solver=solver, method=None, backend=backend, vectorize=True))
@@ -135,7 +139,7 @@ def cases(tier, seed):
 
 
 def describe(tier, seed):
-    return {'rule': 'full lattice model{decay,rot,edge,inp,tdep} x solver{euler,heun} x dt x dts/dt{1,2,5} x T/dts{3,4,7} '
+    return {'rule': 'full lattice model{decay,rot,edge,inp,nonlin,tdep} x solver{euler,heun} x dt x dts/dt{1,2,5} x T/dts{3,4,7} '
                     'x cutoff{0,on-grid,between,last,beyond} on binary-fraction grids (default backend), slices for '
                     'scipy methods, torch and jax solvers, a complex-valued rotation per backend and solver; oracle: own Euler/Heun loop over the get_run_func vector field '
                     'of an identically built template (exact to 1e-12), closed forms for adaptive solvers; '
